@@ -438,6 +438,13 @@ impl Signature {
         key: &dyn VerifyingKey,
         config: &SignatureConfig,
     ) -> Result<()> {
+        // Only document signatures are computed over the literal data of a message; for every
+        // other type the digest is defined over keys / identities (RFC 9580, section 5.2.4).
+        ensure!(
+            matches!(config.typ, SignatureType::Binary | SignatureType::Text),
+            "Expected a binary or text signature in a message, found {:?}",
+            config.typ
+        );
         if key.version() == KeyVersion::V6 {
             ensure_eq!(
                 config.version(),
